@@ -152,6 +152,12 @@ func (r *refLog) del(mn, mx uint64) bool {
 	return true
 }
 
+type heldVal struct {
+	v    []byte
+	want string
+	key  string
+}
+
 // ---- executor ---------------------------------------------------------------
 
 type histEntry struct {
@@ -180,7 +186,8 @@ type walRun struct {
 	afterCrash  bool
 	faulted     bool // a fault was injected since the last Open
 	everFaulted bool
-	dirCodec    uint64            // codec id the directory was created with (0 = not yet)
+	dirCodec    uint64 // codec id the directory was created with (0 = not yet)
+	heldVals    []heldVal
 	acked       map[uint64]string // entries acknowledged and not covered by a later DeleteRange call
 	// per-open true totals for C20
 	tot map[string]uint64
@@ -445,6 +452,18 @@ func trunc(s string, n int) string {
 		return s[:n] + "..."
 	}
 	return s
+}
+
+// checkHeld: values returned by Get earlier must still be what they were (they must
+// not alias memory the store reuses); checked while the store is still open
+func (r *walRun) checkHeld() {
+	for _, h := range r.heldVals {
+		if string(h.v) != h.want {
+			r.c.witness("C08", "stable-value-aliased", fmt.Sprintf("a value returned by Get(%x) changed after later operations (it aliases the store's memory)", h.key), r.line)
+			break
+		}
+	}
+	r.heldVals = nil
 }
 
 func (r *walRun) checkDir() {
@@ -780,6 +799,8 @@ func (r *walRun) run() string {
 				emit(walErrKind(err))
 			} else {
 				emit(hx(v))
+				// keep the returned slice: it must stay what it was when Get returned
+				r.heldVals = append(r.heldVals, heldVal{v: v, want: string(v), key: string(key)})
 				if string(v) != r.stable[string(key)] && !r.everFaulted {
 					r.c.witness("C08", "stable-get-wrong", fmt.Sprintf("Get(%x) = %x, last successful Set wrote %x", key, v, r.stable[string(key)]), r.line)
 				}
@@ -820,6 +841,7 @@ func (r *walRun) run() string {
 				emit("nowal")
 				continue
 			}
+			r.checkHeld() // before the store's memory goes away
 			r.w.Close()
 			emit("ok")
 		case "M":
@@ -980,6 +1002,9 @@ func (r *walRun) run() string {
 				after: cloneAlts(r.alts), stableBefore: stableBefore, stableAfter: stableClone(r.stable),
 				ackedBefore: ackedBefore, ackedAfter: cloneAcked(r.acked)})
 		}
+	}
+	if r.w != nil {
+		r.checkHeld()
 	}
 	if r.cfs != nil && r.cfs.dupID != "" {
 		r.c.witness("C13", "segment-identity-reused", r.cfs.dupID, r.line)
